@@ -81,6 +81,7 @@ func guarded(r *common.Run, entry string, input func() map[string]any, f func())
 
 func main() {
 	r := common.Start("C15", "model_checking")
+	r.ColdStart(coldProbes())
 	// The live heap is a few MB while every case allocates (error values, io.Copy's 32 KiB buffer):
 	// collect at a 1 GiB soft limit instead of every few MB (39k collections -> a few dozen).
 	debug.SetGCPercent(-1)
